@@ -54,7 +54,17 @@ func runSolver(sp solverSpec, file string, timeoutS int) solveResult {
 	_ = cmd.Run()
 	ms := time.Since(t0).Milliseconds()
 	txt := out.String()
-	first := strings.TrimSpace(strings.SplitN(txt, "\n", 2)[0])
+	// the answer is the first line that is not a warning (z3 4.8 prints "WARNING: ... cannot be used in patterns" before
+	// its answer when a state merge put an ite into an explicit trigger; it then picks its own triggers)
+	first := ""
+	for _, ln := range strings.Split(txt, "\n") {
+		ln = strings.TrimSpace(ln)
+		if ln == "" || strings.HasPrefix(ln, "WARNING:") {
+			continue
+		}
+		first = ln
+		break
+	}
 	ans := "error"
 	switch {
 	case first == "unsat":
